@@ -342,14 +342,13 @@ Fixpoint render_tok (t : token) {struct t} : M tok_out :=
   | TCond brs => do ctx <- ctx_now; render_branches render_tok ctx brs
   | TLoop var coll cont chs =>
       if String.eqb var "" || String.eqb coll "" then ret (""%string, CNext, []) else
-      (* the whole loop is inside try/except Exception; the handler returns a 2-tuple, which the
-         caller fails to unpack: any failure inside a loop surfaces as ValueError *)
-      catch
-        (do ctx <- ctx_now;
-         do c <- lift_res (o_eval orc ctx coll);
-         do items <- lift_res (py_iter c);
-         render_loop_items render_tok (split_vars var) cont chs items)
-        (fun _ => raise ValueError)
+      (* only the collection is guarded: if it cannot be evaluated or iterated the loop becomes the inline
+         marker; errors raised in the body propagate *)
+      do ctx <- ctx_now;
+      match (match o_eval orc ctx coll with Ok c => py_iter c | Exc e => Exc e end) with
+      | Exc _ => ret (ERR, CNext, [])
+      | Ok items => render_loop_items render_tok (split_vars var) cont chs items
+      end
   | TJump target args => ret (""%string, CJump (jump_spec target args), [])
   | TPyStmt code => do _ <- exec_statement code; ret (""%string, CNext, [])
   | TPyBlock code => do _ <- exec_block code; ret (""%string, CNext, [])
